@@ -179,6 +179,10 @@ extern void *mpt_identifier_set(MPT_STRUCT(identifier) *id, const char *name, in
 		if (len < 0) {
 			len = strlen(name);
 		}
+		/* max length exceeded, avoid overflow for terminated length */
+		if (len < 0 || len >= UINT16_MAX) {
+			return 0;
+		}
 		/* check _charset for base set */
 		charset = MPT_CHARSET(UTF8);
 		nlen = len + 1;
